@@ -4,6 +4,10 @@
 From IV Require Import Base.Bytes Base.BytesFacts Model.Addr.
 From Coq Require Import ZifyN ZifyNat ZifyBool.
 
+(** the translator found every constant it looks for in pkg/policy/address.go *)
+Lemma addr_consts_ok : addr_consts_complete = true.
+Proof. reflexivity. Qed.
+
 (** * Sweeps *)
 
 Lemma sweep_impl (P Q : N -> bool) :
